@@ -236,7 +236,12 @@ class _RecWriter:
 
 _PRIMS = ("stat", "lstat", "scandir", "listdir", "mkdir", "rmdir", "unlink", "remove", "rename",
           "replace", "open", "chmod", "chown", "symlink", "link", "readlink", "truncate", "utime",
-          "access", "mkfifo", "mknod")
+          "access", "mkfifo", "mknod", "listxattr")
+
+# The simulated process's system temporary directory (tempfile.tempdir points here, see proc.SimProcess).  It is a
+# second file system unless the knob `tmp_same_fs` is set: a rename between it and the rest of the disk fails with EXDEV,
+# as it does between a tmpfs /tmp and a data volume.  It is not part of snapshots (nobody's output tree).
+SYSTMP = ".systmp"
 
 
 class SimFS:
@@ -275,6 +280,7 @@ class SimFS:
             q = self.abs(p)
             self._mk_all(posixpath.dirname(q))
             self.files[q] = bytearray(data if isinstance(data, (bytes, bytearray)) else data.encode("latin-1"))
+        self.dirs.add(self.root + "/" + SYSTMP)
         for q in self.files:
             if q in self.dirs or any(a in self.files for a in self._ancestors(q)):
                 raise ValueError("inconsistent disk image: %r is both a file and a directory (or below a file)" % q)
@@ -298,9 +304,13 @@ class SimFS:
     def rel(self, q):
         return q[len(self.root) + 1:] if q != self.root else ""
 
+    def _in_tmp(self, q):
+        t = self.root + "/" + SYSTMP
+        return q == t or q.startswith(t + "/")
+
     def snapshot(self):
-        return {"dirs": sorted(self.rel(d) for d in self.dirs if d != self.root),
-                "files": {self.rel(p): bytes(b) for p, b in sorted(self.files.items())}}
+        return {"dirs": sorted(self.rel(d) for d in self.dirs if d != self.root and not self._in_tmp(d)),
+                "files": {self.rel(p): bytes(b) for p, b in sorted(self.files.items()) if not self._in_tmp(p)}}
 
     def new_process(self, knobs=None, faults=None):
         """A new simulated process starts on the surviving disk."""
@@ -534,6 +544,9 @@ class SimFS:
             raise SimUnsupported("rename across the virtual root: %r -> %r" % (src, dst))
         a, b = self._norm(src), self._norm(dst)
         self._syscall("rename", a, extra=self.rel(b), mut=True)
+        if self._in_tmp(a) != self._in_tmp(b) and not self.knobs.get("tmp_same_fs"):
+            self.probe_xdev = getattr(self, "probe_xdev", 0) + 1
+            self._err(errno.EXDEV, a)
         self.mutations.append((self.nsys, "rename-to", self.rel(b)))
         self._check_parents(a)
         self._check_parents(b)
@@ -653,8 +666,17 @@ class SimFS:
                 t._CHUNK_SIZE = cs
             return _RecWriter(self, q, t)
         q = self._norm(file)
-        if opener is not None or "+" in mode:
-            raise SimUnsupported("open(%r, %r, opener=%r)" % (file, mode, opener))
+        if "+" in mode:
+            raise SimUnsupported("open(%r, %r)" % (file, mode))
+        if opener is not None:
+            # the opener returns a descriptor (tempfile: from os.open on a fresh name below `file`); go on from it
+            k0 = [c for c in mode if c in "rwxa"][0]
+            flags = {"r": os.O_RDONLY, "w": os.O_WRONLY | os.O_CREAT | os.O_TRUNC, "x": os.O_WRONLY | os.O_CREAT | os.O_EXCL,
+                     "a": os.O_WRONLY | os.O_CREAT | os.O_APPEND}[k0] | getattr(os, "O_CLOEXEC", 0)
+            fd = opener(file, flags)
+            if fd not in self.fds:
+                raise SimUnsupported("open(%r, %r, opener=...) returned a descriptor outside the simulated disk" % (file, mode))
+            return self.p_open(fd, mode, buffering, encoding, errors, newline)
         kind = [c for c in mode if c in "rwxa"]
         if len(kind) != 1:
             raise ValueError("invalid mode: %r" % mode)
@@ -711,6 +733,11 @@ class SimFS:
     # ---- installation ------------------------------------------------------
     def install(self):
         assert self._installed is None
+        # shutil remembers process-wide that sendfile failed once: pin the flag, or the first copy of a process would
+        # make one more call than later ones
+        import shutil
+        self._saved_sendfile_flag = getattr(shutil, "_USE_CP_SENDFILE", False)
+        shutil._USE_CP_SENDFILE = False
         saved = {}
         fs = self
 
@@ -736,7 +763,7 @@ class SimFS:
                 "stat": self.p_stat, "lstat": self.p_stat, "scandir": self.p_scandir,
                 "listdir": self.p_listdir, "mkdir": self.p_mkdir, "rmdir": self.p_rmdir,
                 "unlink": self.p_unlink, "remove": self.p_unlink, "rename": self.p_rename,
-                "replace": self.p_rename}
+                "replace": self.p_rename, "listxattr": (lambda path=None, **k: [])}
         for name in _PRIMS:
             if name == "open":
                 continue
@@ -808,6 +835,8 @@ class SimFS:
         self._installed = (saved, real_open, real_io_open)
 
     def uninstall(self):
+        import shutil
+        shutil._USE_CP_SENDFILE = self._saved_sendfile_flag
         saved, real_open, real_io_open = self._installed
         for name, real in saved.items():
             setattr(os, name, real)
